@@ -169,6 +169,7 @@ def correspondence(ctx):
             ctx.count('corr/final-state-has-a-region-longer-than-the-bound')
         ctx.sample({'fmt': p.img.fmt, 'tag': p.img.tag, 'length': len(p.img.data), 'chunking': p.ctag,
                     'final': impl.split('\t')[-2][:300] + ' ' + v}, 5)
+    G.add_companions(pairs, rng, 0.1)
     out = G.run_pairs(ctx, pairs, on)
     ctx.notes.append('largest final ctx= per format: %s' % dict(sorted(peak.items())))
     ctx.notes.append('model cost units spent: %d' % spent)
@@ -178,8 +179,10 @@ def correspondence(ctx):
 # --------------------------------------------------------------------------
 # failing-input search: sum(context_info.values()) <= bound after every chunk, on the real inspector
 
-def watch(fmt, data, sizes, feed='bytes', ctor=None):
-    """(largest sum(context_info.values()) seen, index of the chunk after which it was seen, position)"""
+def watch(fmt, data, sizes, feed='bytes', ctor=None, after_error='continue'):
+    """(largest sum(context_info.values()) seen, index of the chunk after which it was seen, position).
+    The bound holds "at every point of the stream": by default the inspector keeps being fed after an eat_chunk
+    error (a caller that catches the error and goes on), and is observed after every chunk, erroring or not."""
     best = [0, -1, 0]
     k = [0]
 
@@ -188,7 +191,7 @@ def watch(fmt, data, sizes, feed='bytes', ctor=None):
         if s > best[0]:
             best[:] = [s, k[0], pos]
         k[0] += 1
-    _, _, insp = G.impl_run(fmt, data, sizes, every_chunk=every, feed=feed, ctor=ctor)
+    _, _, insp = G.impl_run(fmt, data, sizes, every_chunk=every, feed=feed, ctor=ctor, after_error=after_error)
     s = sum(insp.context_info.values())          # after finish()
     if s > best[0]:
         best[:] = [s, k[0], len(data)]
@@ -235,6 +238,7 @@ def check_image(ctx, img, fam, fails, thorough_all=False):
             if feed != 'bytes' and watch(img.fmt, data, small, 'bytes', ctor)[0] > lim:
                 feed = 'bytes'
             peak2 = watch(img.fmt, data, small, feed, ctor)[0]
+            keep = watch(img.fmt, data, small, feed, ctor, 'stop')[0] <= lim     # only visible when feeding goes on after an error
             sub = G.Img(img.fmt, data, [], img.tag)
             case = {'kind': 'insp', 'fmt': img.fmt, 'content': sub.field, 'length': len(data),
                     'sizes': G.pack_sizes(small), 'tag': img.tag}
@@ -242,11 +246,15 @@ def check_image(ctx, img, fam, fails, thorough_all=False):
                 case['feed'] = feed
             if ctor:
                 case['ctor'] = ctor
+            case['after_error'] = 'continue' if keep else 'stop'
             fails.append(Failure(case, {
                 'kind': 'retained-bytes-exceed-the-bound',
                 'what': '%s(%s) inspector holds %d bytes (context_info) after %d of %d stream bytes%s; the bound is %d'
                         % (img.fmt, ', '.join('%s=%s' % kv for kv in sorted(ctor.items())), peak2, len(data), len(img.data),
-                           '' if feed == 'bytes' else ' presented as ' + feed, lim)}))
+                           ('' if feed == 'bytes' else ' presented as ' + feed)
+                           + (' (the caller caught the %s raised by an earlier eat_chunk and kept feeding)'
+                              % G.impl_run(img.fmt, data, small, feed=feed, ctor=ctor, after_error='continue')[1].split('raised=')[1].split(' ')[0]
+                              if keep else ''), lim)}))
             return True
     return False
 
@@ -261,7 +269,7 @@ def peak_of(fmt, data, sizes):
         for r in whitebox.regions(i).values():
             if not isinstance(r.length, int) or r.length < 0 or r.length > G.bound(fmt):
                 odd[0] = True           # no length at all, a negative one, or one above the bound
-    insp = G.impl_run(fmt, data, sizes, every_chunk=every)[2]
+    insp = G.impl_run(fmt, data, sizes, every_chunk=every, after_error='continue')[2]
     best[0] = max(best[0], sum(insp.context_info.values()))
     return best[0], odd[0]
 
@@ -412,7 +420,10 @@ def replay(ctx, payload):
     sizes = G.unpack_sizes(case['sizes'])
     fmt = case['fmt']
     feed, ctor = case.get('feed', 'bytes'), case.get('ctor') or {}
-    peak, k, pos = watch(fmt, data, sizes, feed, ctor)
+    ae = case.get('after_error', 'stop')
+    peak, k, pos = watch(fmt, data, sizes, feed, ctor, ae)
+    if ae == 'continue':
+        print('the caller catches eat_chunk errors and keeps feeding the same inspector (the model run below stops at the first error)')
     impl = G.run_insp_x(fmt, data, sizes, trace=len(sizes) <= 200, feed=feed, ctor=ctor)
     model = ctx.driver.ask(G.insp_line(fmt, case['content'], sizes, len(sizes) <= 200))
     print('%s(%s), %d bytes, %d chunk(s) %s, presented as %s' % (fmt, ', '.join('%s=%s' % kv for kv in sorted(ctor.items())),
@@ -423,7 +434,7 @@ def replay(ctx, payload):
           % (peak, k, pos, G.bound(fmt), 'EXCEEDED' if peak > G.bound(fmt) else 'ok'))
     if 'sizes_a' in case or impl != model:
         print('model and implementation %s' % ('agree' if impl == model else 'DISAGREE'))
-    return 1 if (peak > G.bound(fmt) or impl != model) else 0
+    return 1 if (peak > G.bound(fmt) or (impl != model and ae == 'stop')) else 0
 
 
 LEVEL_TEXT = ('Machine-checked proof (Lean 4) over the hand-written inspector model: for every format, stream, chunking and '
